@@ -28,7 +28,7 @@ class Contract:
     """
 
     def __init__(self, qual, params, returns=None, requires=None, ensures=None, raises=None, loops=None,
-                 modifies=(), trusted=False, properties=(), note="", decreases=None, locals=None, defaults=None, hints=None, fuel=3, axioms=()):
+                 modifies=(), trusted=False, properties=(), note="", decreases=None, locals=None, defaults=None, hints=None, fuel=3, axioms=(), abstractions=None, result_builder=None):
         self.qual = qual
         self.params = params
         self.returns = returns
@@ -48,6 +48,13 @@ class Contract:
         self.hints = hints
         self.fuel = fuel  # instantiation rounds for this function's obligations
         self.axioms = list(axioms)  # definitional axioms used only for this function's obligations
+        # abstractions: {source text of an expression: (f(view) -> value, note)}: expressions outside the
+        # executor's subset whose VALUE is given by the contract (library semantics, listed as
+        # assumed in the evidence)
+        self.abstractions = abstractions or {}
+        # result_builder(ex, bound_args) -> value: for factory functions whose result shares heap
+        # objects with the arguments (identity cannot be said in `ensures`)
+        self.result_builder = result_builder
         REGISTRY[qual] = self
 
 
